@@ -37,6 +37,19 @@ CHECKS['C13'] = dict(
               '+ independent RFC 7233 oracle for the violation search',
     design='C13')
 
+CHECKS['C19'] = dict(
+    text='Theorems (all unbounded): C19_duration_roundtrip (every duration us>=0, either tie outcome: parse(render) within '
+         '500 us, exact parse), C19_duration_fields/_text (minutes, seconds < 60, ms < 1000; text is PT[hH][mM]s[.f]S), '
+         'C19_datetime_roundtrip (every valid field tuple, microsecond and offset), C19_timecode_monotone, '
+         'C19_timecode_roundtrip_partial (one tick, timescale <= 10^6), _general and C19_time_roundtrip (all timescales); '
+         'C19_refuted_fine_timescale is the recorded finding. Models transcribe toIsoDuration, the two regular-expression '
+         'parsers of from_isodatetime, to_iso_datetime and the tick helpers; tied to /repo by differential runs on '
+         'formatted values, grammar-generated and mutated texts.',
+    note=TB + 'float arithmetic modelled as exact rationals + rounding (relational at the .xxx5 ms ties); regex/datetime '
+         'library semantics transcribed; fraction digits beyond 6 and UTC offsets beyond +-24h are outside the model.',
+    technique='Coq proof (decimal print/parse round trips, Euclidean-division arithmetic) + differential correspondence',
+    design='C19')
+
 NOT_YET = {
 }
 
